@@ -621,6 +621,34 @@ fn string_from_utf8''')]},
      'edits': [(CORE_YL, "            next = self.iterable.next();\n        }\n        return next;", "            next = self.iterable.next();\n            next = self.iterable.next();\n        }\n        return next;")]},
     {'name': 'Q8f FilterIter.iter answers a new adapter', 'prop': 'C18', 'expect': 'Q8f / FilterIter / iter',
      'edits': [(CORE_YL, "        self.predicate = predicate;\n    }\n\n    fn iter(self) {\n        return self;", "        self.predicate = predicate;\n    }\n\n    fn iter(self) {\n        return FilterIter.new(self.iterable, self.predicate);")]},
+    # ---- rules of round 9 ----------------------------------------------------------------------------------------------------
+    {'name': 'E10 adding to the number zero hands back the other operand unseen', 'prop': 'C05', 'expect': 'E10 / yarel::vm::Vm::add_impl',
+     'edits': [(VM, "            (Value::Number(a), Value::Number(b)) => {\n                self.push(Value::Number(a + b));\n            }",
+                "            (Value::Number(a), other) if a == 0.0 => {\n                self.push(other);\n            }\n\n            (Value::Number(a), Value::Number(b)) => {\n                self.push(Value::Number(a + b));\n            }")]},
+    {'name': 'E11 integer route for the remainder of whole numbers', 'prop': 'C05', 'expect': 'E11 / ',
+     'edits': [(VM, "self.binary_op_impl(|a, b| Value::Number(a % b))?;",
+                "self.binary_op_impl(|a, b| {\n                        if a.fract() == 0.0 && b.fract() == 0.0 && b != 0.0 {\n                            Value::Number(((a as i64) % (b as i64)) as f64)\n                        } else {\n                            Value::Number(a % b)\n                        }\n                    })?;")]},
+    {'name': 'T13 emit_loop converts the offset with try_from().unwrap() after reporting the error', 'prop': 'C03', 'expect': 'T13 / ',
+     'edits': [(COMP, "        let bytes = (offset as u16).to_ne_bytes();\n\n        self.emit_byte(bytes[0]);\n        self.emit_byte(bytes[1]);\n    }\n\n    fn emit_jump",
+                "        let bytes = std::convert::TryFrom::try_from(offset).map(|o: u16| o.to_ne_bytes()).unwrap();\n\n        self.emit_byte(bytes[0]);\n        self.emit_byte(bytes[1]);\n    }\n\n    fn emit_jump")]},
+    {'name': 'T14 number() unwraps the parse result', 'prop': 'C03', 'expect': 'T14 / ',
+     'edits': [(COMP, "        let value = match s.previous.source.as_str().parse::<f64>() {\n            Ok(n) => n,\n            Err(_) => {\n                s.error(\"Unable to parse number.\");\n                return;\n            }\n        };",
+                "        let value = s.previous.source.as_str().parse::<f64>().expect(\"the scanner only lets numbers through\");")]},
+    {'name': 'K7 invoke calls a field value without storing it in the callee slot', 'prop': 'C07', 'expect': 'K7 / yarel::vm::Vm::invoke',
+     'edits': [(VM, "                if let Some(value) = instance.borrow().fields.get(&name) {\n                    self.poke(arg_count, *value);\n", "                if let Some(value) = instance.borrow().fields.get(&name) {\n")]},
+    {'name': 'F10 load_fiber writes the caller link only when it is empty', 'prop': 'C09', 'expect': 'F10 / load_fiber',
+     'edits': [(VM, "        self.active_fiber_mut().caller = caller.map(|p| p.as_gc());", "        if self.active_fiber().caller.is_none() {\n            self.active_fiber_mut().caller = caller.map(|p| p.as_gc());\n        }")]},
+    {'name': 'E12 the chunk remembers the last line it was asked for', 'prop': 'C17', 'expect': 'E12 / Chunk',
+     'edits': [(CHUNK, "    pub constants: Vec<Value>,\n}", "    pub constants: Vec<Value>,\n    pub last_line: std::cell::Cell<i32>,\n}")]},
+    {'name': 'L12 add_chunk hands out an earlier chunk with the same bytes', 'prop': 'C17', 'expect': 'L12 / add_chunk',
+     'edits': [(VM, "        let root = Root::new(chunk);\n        let ret = root.as_gc();\n        self.chunks.push(root);\n        ret",
+                "        if let Some(same) = self.chunks.iter().find(|c| c.code == chunk.code && c.constants == chunk.constants) {\n            return same.as_gc();\n        }\n        let root = Root::new(chunk);\n        let ret = root.as_gc();\n        self.chunks.push(root);\n        ret")]},
+    {'name': 'D5 the number token keeps at most 64 bytes of its text', 'prop': 'C19', 'expect': 'D5 / Scanner::number',
+     'edits': [(SCAN, "        self.make_token(TokenKind::Number)\n", "        let mut token = self.make_token(TokenKind::Number);\n        token.source.truncate(64);\n        token\n")]},
+    {'name': 'E13 fibers lose their arm in PartialEq', 'prop': 'C05', 'expect': 'E13 / Value::ObjFiber',
+     'edits': [(VAL, "            (Value::ObjFiber(first), Value::ObjFiber(second)) => *first == *second,\n", "")]},
+    {'name': 'B12 add_constant searches the table by position first', 'prop': 'C04', 'expect': 'B12 / add_constant',
+     'edits': [(CHUNK, "        let new_index = self.constants.len();\n        let mut new_entry = false;", "        if let Value::ObjFunction(f) = value {\n            if let Some(i) = self.constants.iter().position(|c| matches!(c, Value::ObjFunction(g) if g.chunk.code == f.chunk.code)) {\n                return i;\n            }\n        }\n        let new_index = self.constants.len();\n        let mut new_entry = false;")]},
 ]
 
 BENIGN = [
